@@ -17,6 +17,20 @@ Theorem C16_unframe_frame : forall blob, bytes blob -> unframe_enc (frame_enc bl
 Proof. exact unframe_frame. Qed.
 Print Assumptions C16_unframe_frame.
 
+(* the framing is unambiguous: distinct ciphertext blobs / digests never share a field value, and a value framed as an HMAC
+   is never accepted where an encrypted value is expected (nor the converse) *)
+Theorem C16_frame_enc_injective : forall a b, bytes a -> bytes b -> frame_enc a = frame_enc b -> a = b.
+Proof. exact frame_enc_injective. Qed.
+Print Assumptions C16_frame_enc_injective.
+
+Theorem C16_frame_hmac_injective : forall a b, bytes a -> bytes b -> frame_hmac a = frame_hmac b -> a = b.
+Proof. exact frame_hmac_injective. Qed.
+Print Assumptions C16_frame_hmac_injective.
+
+Theorem C16_frames_disjoint : forall x, unframe_enc (frame_hmac x) = None /\ strip_prefix prefix_hmac (frame_enc x) = None.
+Proof. intros x. split; [exact (hmac_frame_is_not_enc x) | exact (enc_frame_is_not_hmac x)]. Qed.
+Print Assumptions C16_frames_disjoint.
+
 (* decrypt_roundtrip: for every filter state, every event (with or without per-event wrapper info), every plaintext —
    any list of bytes, empty and non-UTF-8 included — and every AEAD randomness: the value the filter produces unframes
    and decrypts, with the wrapper in force for that event, to exactly the plaintext *)
